@@ -1886,6 +1886,9 @@ func (h *fsmHandler) sendMessageloop(ctx context.Context, conn net.Conn, stateRe
 				options := &bgp.MarshallingOption{
 					AddPath:         fsm.familyMap.Load().(map[bgp.Family]bgp.BGPAddPathMode),
 					ExtendedMessage: fsm.extendedMessage.Load(),
+					// send() converts each UPDATE for a 2-octet AS peer;
+					// the packer has to leave room for AS4_PATH / AS4_AGGREGATOR
+					Use2ByteAS: fsm.twoByteAsTrans,
 				}
 				for _, msg := range table.CreateUpdateMsgFromPaths(paths, options) {
 					if err := send(msg); err != nil {
